@@ -22,7 +22,7 @@ class Purity:
     def quiet_pattern(self, pat, depth=0):
         if pat in self.memo:
             return self.memo[pat]
-        if re.match(r"^xenium::reclamation::[a-z_]+::guard_ptr::(acquire|acquire_if_equal|reset)$", pat) or pat == "xenium::acquire_guard":
+        if re.match(r"^xenium::reclamation::[a-z_]+::guard_ptr::(acquire|acquire_if_equal|reset|guard_ptr|~guard_ptr|operator=)$", pat) or pat == "xenium::acquire_guard":
             # publishing / withdrawing this thread's own protection never changes a condition another thread is waited for
             self.memo[pat] = True
             return True
@@ -33,8 +33,11 @@ class Purity:
             # waits for; blocking primitives are handled separately (LOCK_CALLS).
             # conservative: only a small set of helpers is known to be quiet; anything else may write shared state, so a cycle through it is
             # not classified as a wait construct (precision first: an armed check must be exact)
-            r = pat in QUIET_STD or pat.startswith("std::chrono") or pat.split("::")[-1] in (
+            parts = pat.split("::")
+            r = pat in QUIET_STD or pat.startswith("std::chrono") or parts[-1] in (
                 "operator==", "operator!=", "operator<", "operator>", "get", "mark", "operator->", "operator*", "operator conv", "operator bool")
+            if not r and parts[0] == "xenium" and len(parts) > 2 and (parts[-1] == "operator=" or parts[-1].lstrip("~") == parts[-2]):
+                r = True   # implicitly defined special member of a xenium class (std::atomic members are not copyable, so it copies plain state)
             self.memo[pat] = r
             return r
         r = True
@@ -59,6 +62,197 @@ class Purity:
                 break
         self.memo[pat] = r
         return r
+
+
+CONST_MEMBER_LEAVES = ("get", "mark", "operator->", "operator*", "operator bool", "operator conv", "operator==", "operator!=", "version",
+                       "item_count", "delete_marker", "is_locked", "load", "size", "empty", "value", "idx", "tag", "operator[]", "first", "second")
+
+
+def _pure_pattern(purity, pat, depth=0):
+    """quiet and without plain stores to anything but its own locals (its result depends only on its arguments and on shared memory)"""
+    memo = purity.__dict__.setdefault("pure_memo", {})
+    if pat in memo:
+        return memo[pat]
+    memo[pat] = True
+    if not purity.quiet_pattern(pat):
+        memo[pat] = False
+        return False
+    r = True
+    for fn in purity.facts.shapes(pat)[:6]:
+        for b, i, e, n in fn.events():
+            lhs = None
+            if n["k"] == "bin" and n["op"].endswith("=") and n["op"] not in ("==", "!=", "<=", ">="):
+                lhs = fn.kids(e)[0] if fn.kids(e) else None
+            elif n["k"] == "un" and n["op"] in ("++", "--"):
+                lhs = fn.kids(e)[0] if fn.kids(e) else None
+            if lhs is not None:
+                ln = fn.nodes[lhs]
+                if not (ln["k"] == "ref" and ln.get("dk") == "local"):
+                    r = False
+                    break
+            if n["k"] == "call" and n.get("xen") and not fn.atomic(e) and depth < 6:
+                if not _pure_pattern(purity, n.get("callee", "?"), depth + 1):
+                    r = False
+                    break
+        if not r:
+            break
+    memo[pat] = r
+    return r
+
+
+def _lname(fn, nid):
+    """name of the local storage an lvalue expression denotes: a local / parameter, or one plain member of it ('info.next')"""
+    n = fn.nodes[nid]
+    if n["k"] == "ref" and n.get("dk") in ("local", "param"):
+        return n["name"]
+    if n["k"] == "member" and not n.get("t", "").startswith("std::atomic"):
+        k = fn.kids(nid)
+        if k and fn.nodes[k[0]]["k"] == "ref" and fn.nodes[k[0]].get("dk") in ("local", "param"):
+            return fn.nodes[k[0]]["name"] + "." + str(n.get("leaf"))
+    return None
+
+
+def _names_in(fn, nid):
+    out = set()
+    for x in fn.subtree(nid):
+        nm = _lname(fn, x)
+        if nm:
+            out.add(nm)
+    return out
+
+
+def _cycle_locals(fn, cyc, purity):
+    """(defined, variant): local storage (re)defined along this elementary cycle, and the part of it whose value may differ between two
+    consecutive solo iterations: defined by an unknown write, (transitively) in terms of itself (cursor = cursor->next, ++i), or set to
+    something else than what it held when the cycle was entered (start = &head: the first iteration changes the state, so nothing is
+    claimed about the following ones)"""
+    defs = {}
+    cyc_events = set()
+    declared_on_cycle = set()
+    for b in cyc:
+        for e in fn.blocks[b]["elems"]:
+            cyc_events.add(e)
+            n = fn.nodes[e]
+            k = fn.kids(e)
+            if n["k"] == "decl":
+                for v in n["vars"]:
+                    declared_on_cycle.add(v["name"])
+                    if "init" in v:
+                        defs.setdefault(v["name"], []).append(v["init"])
+            elif n["k"] == "bin" and n["op"].endswith("=") and n["op"] not in ("==", "!=", "<=", ">="):
+                nm = _lname(fn, k[0]) if k else None
+                if nm:
+                    defs.setdefault(nm, []).append(k[1] if n["op"] == "=" and len(k) > 1 else None)
+            elif n["k"] == "un" and n["op"] in ("++", "--", "&"):
+                nm = _lname(fn, k[0]) if k else None
+                if nm:
+                    defs.setdefault(nm, []).append(None)
+            elif n["k"] == "call" and not fn.atomic(e):
+                c = n.get("callee", "?")
+                leaf = c.split("::")[-1]
+                first = 0
+                if n.get("member") and k:
+                    first = 1
+                    nm = _lname(fn, k[0])
+                    if nm:
+                        if leaf == "operator=":
+                            defs.setdefault(nm, []).append(k[1] if len(k) > 1 else None)
+                        elif leaf in ("acquire", "acquire_if_equal"):
+                            defs.setdefault(nm, []).append(e)
+                        elif leaf not in CONST_MEMBER_LEAVES:
+                            defs.setdefault(nm, []).append(None)
+                # a local passed to a function that is not known to be pure may be modified through a reference
+                if c not in QUIET_STD and leaf not in CONST_MEMBER_LEAVES and leaf not in ("acquire", "acquire_if_equal") and \
+                        not (purity.facts.shapes(c) and _pure_pattern(purity, c)):
+                    for a_ in k[first:]:
+                        nm = _lname(fn, a_)
+                        if nm:
+                            defs.setdefault(nm, []).append(None)
+    dep = {}
+    variant = set()
+    # definitions outside the cycle (flow-insensitive): does the cycle put something else into the local than it held on entry?
+    outside = {}
+    for b_, i_, e, n in fn.events():
+        if e in cyc_events:
+            continue
+        k = fn.kids(e)
+        if n["k"] == "decl":
+            for v in n["vars"]:
+                if v["name"] in defs and "init" in v and v["init"] not in cyc_events:
+                    outside.setdefault(v["name"], []).append(v["init"])
+        elif n["k"] == "bin" and n["op"] == "=" and k and _lname(fn, k[0]) in defs and len(k) > 1:
+            outside.setdefault(_lname(fn, k[0]), []).append(k[1])
+        elif n["k"] == "call" and n.get("member") and n.get("callee", "").endswith("operator=") and k and _lname(fn, k[0]) in defs and len(k) > 1:
+            outside.setdefault(_lname(fn, k[0]), []).append(k[1])
+    for nm, ds in defs.items():
+        dep[nm] = set()
+        if fn_is_param(fn, nm):
+            variant.add(nm)     # value on entry unknown
+        for d in ds:
+            if d is None:
+                variant.add(nm)
+                continue
+            dep[nm] |= (_names_in(fn, d) & set(defs))
+            # components: a write to 'x' also changes 'x.f' and vice versa
+            if nm not in declared_on_cycle:   # (a declaration on the cycle creates the variable afresh in every iteration)
+                for o in outside.get(nm, ()):
+                    if fn.expr(o) != fn.expr(d):
+                        variant.add(nm)
+    for nm in list(defs):
+        base = nm.split(".")[0]
+        for other in defs:
+            if other != nm and other.split(".")[0] == base and (other == base or nm == base):
+                dep[nm].add(other)
+
+    # a local that (transitively) depends on itself advances; everything that depends on a variant local is variant
+    def reaches_self(a):
+        seen = set()
+        st = list(dep.get(a, ()))
+        while st:
+            y = st.pop()
+            if y == a:
+                return True
+            if y in seen:
+                continue
+            seen.add(y)
+            st.extend(dep.get(y, ()))
+        return False
+    for nm in defs:
+        if reaches_self(nm):
+            variant.add(nm)
+    changed = True
+    while changed:
+        changed = False
+        for nm in defs:
+            if nm not in variant and dep[nm] & variant:
+                variant.add(nm)
+                changed = True
+    return set(defs), variant
+
+
+def fn_is_param(fn, nm):
+    return "." not in nm and any(p["name"] == nm for p in fn.params)
+
+
+def _cond_invariant(fn, cond, variant, purity):
+    """the condition is a pure function of locals that keep their value from one solo iteration to the next, and of shared memory"""
+    for x in fn.subtree(cond):
+        n = fn.nodes[x]
+        nm = _lname(fn, x)
+        if nm and (nm in variant or nm.split(".")[0] in variant or any(v.startswith(nm + ".") for v in variant)):
+            return False
+        if n["k"] in ("call", "construct") and not fn.atomic(x):
+            c = n.get("callee", "?")
+            leaf = c.split("::")[-1]
+            if c in QUIET_STD or leaf in CONST_MEMBER_LEAVES:
+                continue
+            if n["k"] == "construct" and not n.get("xen"):
+                continue
+            if not purity.facts.shapes(c) or not _pure_pattern(purity, c):
+                return False
+        if n["k"] in ("new", "delete", "throw", "lambda"):
+            return False
+    return True
 
 
 def wait_loops(fn, purity):
@@ -178,6 +372,7 @@ def wait_loops(fn, purity):
                         k = fn.kids(e)
                         if k and fn.nodes[k[0]]["k"] == "ref" and fn.nodes[k[0]].get("dk") == "local":
                             modified.add(fn.nodes[k[0]].get("name"))
+            cyc_locals = None
             for i_, b in enumerate(cyc):
                 nxt = cyc[(i_ + 1) % len(cyc)]
                 blk = fn.blocks[b]
@@ -186,12 +381,22 @@ def wait_loops(fn, purity):
                 if blk["succ"][0] == blk["succ"][1]:
                     continue
                 outcome = (blk["succ"][0] == nxt)   # condition was true on this cycle edge
-                kinds.append(_edge_kind(fn, blk["cond"], outcome, modified))
+                kd = _edge_kind(fn, blk["cond"], outcome, modified)
+                if kd in ("unknown", "constant-test", "unchanged"):
+                    if cyc_locals is None:
+                        cyc_locals = _cycle_locals(fn, cyc, purity)
+                    if kd == "unknown":
+                        # a condition that is a pure function of values that do not change from one solo iteration to the next comes out the same
+                        # way every time: the cycle, once entered, is left only if another thread writes
+                        kd = "invariant" if _cond_invariant(fn, blk["cond"], cyc_locals[1], purity) else "unknown"
+                    elif not _cond_invariant(fn, blk["cond"], cyc_locals[1], purity):
+                        kd = "unknown"   # the tested local advances along the cycle (list walk): not a wait
+                kinds.append(kd)
             if not has_load or not kinds:
                 continue
             if "bounded" in kinds or "changed" in kinds or "unknown" in kinds:
                 continue   # bounded by a counter, or repeated only because another thread changed something (lock-free retry), or not classifiable
-            if "constant-test" in kinds or "unchanged" in kinds:
+            if "constant-test" in kinds or "unchanged" in kinds or "invariant" in kinds:
                 lines = sorted({fn.nodes[e].get("l", 0) for b in cyc for e in fn.blocks[b]["elems"] if fn.nodes[e].get("l")})
                 conds = [fn.expr(fn.blocks[b]["cond"])[:60] for b in cyc if "cond" in fn.blocks[b]]
                 out.append({"blocks": sorted(cyc), "lines": (lines[0], lines[-1]) if lines else (0, 0), "conds": conds})
